@@ -527,6 +527,8 @@ pub fn c06(r: &mut Rng, out: &mut Out, n: usize) {
 pub fn c16(r: &mut Rng, out: &mut Out, n: usize) {
     for i in 0..n {
         let (t, s) = any_chain(r, 6, 1e3);
+        let (me, mi) = t.verif_elements();
+        let mats = format!("{} {}", hm(&me), hm(&mi));
         let big = r.pick(&[1., 10., 1e3, 1e6]);
         let p = Point3D::new(r.range(-big, big), r.range(-big, big), r.range(-big, big));
         let v = Vector3D::new(p.x, p.y, p.z);
@@ -546,7 +548,7 @@ pub fn c16(r: &mut Rng, out: &mut Out, n: usize) {
                 let b = t.inv_transform_pt_with_error(p);
                 out.case(
                     &format!("tr.pterr {} {}", s, hp(p)),
-                    &format!("{} {} {} {}", hp(a.0), hp(a.1), hp(b.0), hp(b.1)),
+                    &format!("{} {} {} {} {}", hp(a.0), hp(a.1), hp(b.0), hp(b.1), mats),
                 );
             }
             1 => {
@@ -554,7 +556,7 @@ pub fn c16(r: &mut Rng, out: &mut Out, n: usize) {
                 let b = t.inv_transform_vec_with_error(v);
                 out.case(
                     &format!("tr.vecerr {} {}", s, hv(v)),
-                    &format!("{} {} {} {}", hv(a.0), hp(a.1), hv(b.0), hp(b.1)),
+                    &format!("{} {} {} {} {}", hv(a.0), hp(a.1), hv(b.0), hp(b.1), mats),
                 );
             }
             2 => {
@@ -562,7 +564,7 @@ pub fn c16(r: &mut Rng, out: &mut Out, n: usize) {
                 let b = t.inv_transform_pt_propagate_error(p, e);
                 out.case(
                     &format!("tr.ptprop {} {} {}", s, hp(p), hp(e)),
-                    &format!("{} {} {} {}", hp(a.0), hp(a.1), hp(b.0), hp(b.1)),
+                    &format!("{} {} {} {} {}", hp(a.0), hp(a.1), hp(b.0), hp(b.1), mats),
                 );
             }
             3 => {
@@ -570,7 +572,7 @@ pub fn c16(r: &mut Rng, out: &mut Out, n: usize) {
                 let b = t.inv_transform_vec_propagate_error(v, e);
                 out.case(
                     &format!("tr.vecprop {} {} {}", s, hv(v), hp(e)),
-                    &format!("{} {} {} {}", hv(a.0), hp(a.1), hv(b.0), hp(b.1)),
+                    &format!("{} {} {} {} {}", hv(a.0), hp(a.1), hv(b.0), hp(b.1), mats),
                 );
             }
             4 => {
@@ -581,10 +583,10 @@ pub fn c16(r: &mut Rng, out: &mut Out, n: usize) {
                 let a = t.transform_ray(&ray);
                 let b = t.inv_transform_ray(&ray);
                 out.case(
-                    &format!("tr.ray {} {}", s, hray(&ray)),
+                    &format!("tr.rayerr {} {}", s, hray(&ray)),
                     &format!(
-                        "{} {} {} {} {} {}",
-                        hray(&a.0), hp(a.1), hp(a.2), hray(&b.0), hp(b.1), hp(b.2)
+                        "{} {} {} {} {} {} {}",
+                        hray(&a.0), hp(a.1), hp(a.2), hray(&b.0), hp(b.1), hp(b.2), mats
                     ),
                 );
             }
@@ -598,8 +600,8 @@ pub fn c16(r: &mut Rng, out: &mut Out, n: usize) {
                 out.case(
                     &format!("tr.rayprop {} {} {} {}", s, hray(&ray), hp(e), hp(e2)),
                     &format!(
-                        "{} {} {} {} {} {}",
-                        hray(&a.0), hp(a.1), hp(a.2), hray(&b.0), hp(b.1), hp(b.2)
+                        "{} {} {} {} {} {} {}",
+                        hray(&a.0), hp(a.1), hp(a.2), hray(&b.0), hp(b.1), hp(b.2), mats
                     ),
                 );
             }
